@@ -450,6 +450,8 @@ type sim struct {
 	noPeerSince    time.Duration // -1: some peer is connected
 	contractBroken string
 	drops          map[[3]uint64]int
+	hadRetrySnap   bool            // the current queue incarnation went through RETRY_SNAPSHOT
+	reqSinceRetry  map[uint32]bool // chunk indexes requested since the last RETRY_SNAPSHOT
 }
 
 // onDriver: the logger must never Goexit the driver goroutine. The driver sets driverFlag
@@ -462,7 +464,7 @@ func newSim(env *simcore.Env, cfg simcore.Op) simcore.Sim {
 	s := &sim{env: env, cfg: cfg, mode: cfg.Str("mode"), opsLeft: cfg.Int("nops"),
 		advertisers: map[string]map[string]bool{}, everAdvertised: map[string]bool{}, rejectedPeer: map[string]int{},
 		rejectedSnap: map[string]bool{}, rejectedFmt: map[uint32]bool{}, lastRefetch: map[uint32]int{},
-		release: make(chan verdict, 1), exited: make(chan struct{}), freshSince: -1, noPeerSince: -1, drops: map[[3]uint64]int{}}
+		release: make(chan verdict, 1), exited: make(chan struct{}), freshSince: -1, noPeerSince: -1, drops: map[[3]uint64]int{}, reqSinceRetry: map[uint32]bool{}}
 	s.m.reset()
 	env.Count("mode." + s.mode)
 	s.tmp = filepath.Join(env.MkScratch(), "tmp")
@@ -735,6 +737,9 @@ func (s *sim) observe() {
 		if _, rej := s.rejectedPeer[peerID(r.peer)]; rej {
 			e.Fail("C14", "request-to-rejected-sender", "chunk %d of snapshot %d/%d requested from peer %d after the application rejected that sender", r.i, r.h, r.f, r.peer)
 		}
+		if s.m.live() && r.h == s.m.h && r.f == s.m.f {
+			s.reqSinceRetry[r.i] = true
+		}
 		if lr := s.lastRefetch[r.i]; lr > 0 && s.m.live() && r.h == s.m.h && r.f == s.m.f {
 			e.Count("probe.refetch_requested")
 		}
@@ -871,7 +876,17 @@ func (s *sim) Finish() {
 	case done && err != nil:
 		s.env.Fail("C14", "honest-sync-failed", "mode %s: Sync failed: %v", s.mode, err)
 	case !done && s.now()-s.lastProgress > stuckAfter:
-		s.env.Fail("C14", "honest-sync-incomplete", "mode %s: every request of the reactor was answered in time, yet for %d ms of simulated time (since t=%d ms) Sync has neither called the application nor returned (phase %s, %d/%d chunks applied, %d requests unanswered)",
+		sig := "honest-sync-incomplete"
+		if lo, ok := s.m.lowest(); ok && s.hadRetrySnap && s.m.lax[lo] == nil {
+			// After the application asked to restart the snapshot, the chunk it waits for is not
+			// held and the reactor has stopped asking for it: never requested again, or requested
+			// once by a fetcher left over from before the restart and not retried.
+			sig = "chunk-fetch-abandoned-after-retry-snapshot"
+			if s.reqSinceRetry[lo] {
+				s.env.Count("probe.abandoned_after_single_request")
+			}
+		}
+		s.env.Fail("C14", sig, "mode %s: every request of the reactor was answered in time, yet for %d ms of simulated time (since t=%d ms) Sync has neither called the application nor returned (phase %s, %d/%d chunks applied, %d requests unanswered)",
 			s.mode, (s.now() - s.lastProgress).Milliseconds(), s.lastProgress.Milliseconds(), s.m.phase, len(s.m.returned), s.m.n, len(s.outstanding))
 	case !done:
 		s.env.Count("probe.coop_unfinished")
